@@ -1421,7 +1421,12 @@ class QueryBuilder(Selectable, Term):  # type:ignore[misc]
         ):
             # On the odd chance that we join a table that is in the statement already and don't set an alias:
             # give it the next free one - <name>2, <name>3, ...
-            names_in_use = {table.get_table_name() for table in tables_in_query}
+            # every source counts - a subquery or set operation answers to its alias
+            names_in_use = {table.get_table_name() for table in tables_in_query} | {
+                getattr(source, "alias", None)
+                for source in base_tables + [j.item for j in self._joins]
+                if source is not None
+            }
             number = 2
             while "%s%d" % (join.item._table_name, number) in names_in_use:
                 number += 1
